@@ -5,9 +5,12 @@ cd /verif
 git -C /repo diff --quiet || { echo "/repo has uncommitted changes"; exit 3; }
 git -C /repo apply "$PATCH" || { echo "patch does not apply"; exit 3; }
 cp evidence/$ID.json /tmp/ev_$ID.bak 2>/dev/null
+mkdir -p replays/$ID; ls replays/$ID > /tmp/seedtest_before_$ID.txt
 ./check $ID --tier $TIER > /tmp/seedtest_$ID.log 2>&1; RC=$?
 git -C /repo checkout -- .
-# replay files written by this run are not kept here (moved by the caller if wanted)
+# replay files written by this run are moved to /tmp/seedtest_catches_$ID (the caller keeps what it wants)
+rm -rf /tmp/seedtest_catches_$ID; mkdir -p /tmp/seedtest_catches_$ID
+for f in $(ls replays/$ID); do grep -qx "$f" /tmp/seedtest_before_$ID.txt || mv replays/$ID/$f /tmp/seedtest_catches_$ID/; done
 grep -E "VIOLATION|INTERNAL|tier=" /tmp/seedtest_$ID.log | head -5
 cp /tmp/ev_$ID.bak evidence/$ID.json 2>/dev/null
 echo "exit=$RC"
